@@ -24,7 +24,8 @@ class Gen:
         self.max_depth = max_depth
         self.loopvars = []
         self.f = features or {"comp": True, "all": True, "fstring": True, "walrus": True, "star": False, "guard": True,
-                              "chain": True, "ifexp": True, "dict": True}
+                              "chain": True, "ifexp": True, "dict": True, "v2": True}
+        self.v2 = bool(self.f.get("v2", True))
 
     def pick(self, opts):
         return self.rng.choice(opts)
@@ -34,6 +35,21 @@ class Gen:
         leaves = ["x", "y", "GL", "cl", "o.a", "%d" % r.randint(0, 3)] + [v for v in self.loopvars]
         if d <= 0:
             return self.pick(leaves)
+        if self.v2 and r.random() < 0.15:
+            return self.pick([
+                "len(%s)" % self.tuple_(d - 1),
+                "max(%s, default=%s)" % (self.list_(d - 1), self.int_(0)),
+                "min(%s, default=%s)" % (self.list_(d - 1), self.int_(0)),
+                "sum(%s, start=%s)" % (self.list_(d - 1), self.int_(0)),
+                "%s[%s]" % (self.tuple_(d - 1), self.pick(["0", "-1", "1"])),
+                "max(*%s)" % self.pick(["[%s, %s]" % (self.int_(0), self.int_(0)), "xs", "(%s, %s, %s)" % (self.int_(0), self.int_(0), self.int_(0))]),
+                "min(%s, *%s)" % (self.int_(0), self.list_(0)),
+                "{'k': %s, **d}['k']" % self.int_(d - 1),
+                "{**d, 'k': %s}['k']" % self.int_(d - 1),
+                "dict(d, k=%s)['k']" % self.int_(d - 1),
+                "len({%s, %s})" % (self.int_(0), self.int_(0)),
+                "len(f'{%s}')" % self.int_(d - 1),
+            ])
         k = r.randint(0, 15)
         if k <= 3:
             return self.pick(leaves)
@@ -63,10 +79,36 @@ class Gen:
             return "(w := %s)" % self.int_(d - 1)
         return self.pick(leaves)
 
+    def tuple_(self, d):
+        return self.pick([
+            "(%s, %s)" % (self.int_(max(0, d - 1)), self.int_(0)),
+            "(%s,)" % self.int_(0),
+            "(*%s, %s)" % (self.list_(0), self.int_(0)),
+            "(%s, *%s, *%s)" % (self.int_(0), self.list_(0), self.list_(0)),
+            "tuple(%s)" % self.list_(max(0, d - 1)),
+            "(%s, %s)[%s:]" % (self.int_(0), self.int_(0), self.pick(["0", "1", "-1"])),
+        ])
+
     def bool_(self, d):
         r = self.rng
         if d <= 0:
             return "%s %s %s" % (self.int_(0), self.pick(["<", ">", "==", "!=", "<=", ">="]), self.int_(0))
+        if self.v2 and r.random() < 0.15:
+            return self.pick([
+                "%s %s %s" % (self.tuple_(d - 1), self.pick(["==", "<", "!=", ">="]), self.tuple_(d - 1)),
+                "%s in %s" % (self.int_(d - 1), self.tuple_(d - 1)),
+                "%s in {%s, %s}" % (self.int_(d - 1), self.int_(0), self.int_(0)),
+                "{'a': %s, **d} == d" % self.int_(d - 1),
+                "{**d, 'a': %s, 'b': %s} == d" % (self.int_(0), self.int_(0)),
+                "dict(a=%s) == d" % self.int_(d - 1),
+                "%s in d" % self.pick(["'a'", "s", "'zz'"]),
+                "%s == %s" % (self.str_(d - 1), self.str_(0)),
+                "%s[%s:%s:%s] == %s" % (self.list_(d - 1), self.pick(["", "0", "1", "-2"]), self.pick(["", "2", "-1"]), self.pick(["", "2", "-1"]), self.list_(0)),
+                "s[%s:%s] == %s" % (self.pick(["", "0", "1"]), self.pick(["", "2", "-1"]), self.pick(["s", "'a'", "''"])),
+                "sorted(%s, reverse=%s) == %s" % (self.list_(d - 1), self.pick(["True", "False", "x"]), self.list_(0)),
+                "[*%s, %s] == %s" % (self.list_(d - 1), self.int_(0), self.list_(0)),
+                "[%s, *%s, *%s] == %s" % (self.int_(0), self.list_(0), self.tuple_(0), self.list_(0)),
+            ])
         k = r.randint(0, 16)
         if k <= 2:
             return "%s %s %s" % (self.int_(d - 1), self.pick(["<", ">", "==", "!=", "<=", ">="]), self.int_(d - 1))
@@ -131,6 +173,18 @@ class Gen:
         if k == 0 or d <= 0:
             return self.pick(["s", "'a'", "''"])
         if k == 1 and self.f["fstring"]:
+            if self.v2 and self.rng.random() < 0.6:
+                return self.pick([
+                    "f'{%s!r}'" % self.int_(d - 1),
+                    "f'{%s!r}|{s!s}'" % self.list_(max(0, d - 1)),
+                    "f'{%s:03d}'" % self.int_(d - 1),
+                    "f'{%s:>{y}}'" % self.int_(d - 1),
+                    "f'{s!r}={%s}'" % self.int_(d - 1),
+                    "f'{s:>4}{s:^5}{s:<3}|'",
+                    "f'{%s:*^7d}'" % self.int_(d - 1),
+                    "f'{%s}{%s!r}'" % (self.tuple_(0), self.pick(["n", "d", "x"])),
+                    "f'{s:{y}}'",
+                ])
             return "f'{%s}%s'" % (self.int_(d - 1), self.pick(["", "!", "-{s}", "{x!r}", "{y:>3}"]))
         if k == 2:
             return "str(%s)" % self.int_(d - 1)
